@@ -22,6 +22,9 @@ ERR_TYPES = ("error::ActorError", "futures_channel::oneshot::Canceled", "futures
 ACCEPTED_DISCARDS = {
     ("<actor::spawner::", "ok"): "spawner join flattens task failure and actor error to None (C17 R17.2)",
     ("<actor::spawner::", "and_then"): "tokio join: Result<DynResult<A>, JoinError> flattened to Option (C17 R17.2)",
+    # the same, when the join future is built by a named function of the spawner module
+    ("actor::spawner::", "ok"): "spawner join flattens task failure and actor error to None (C17 R17.2)",
+    ("actor::spawner::", "and_then"): "tokio join: Result<DynResult<A>, JoinError> flattened to Option (C17 R17.2)",
 }
 
 
@@ -76,12 +79,15 @@ def run(ctx):
 def check_cfg(ctx, fx, cfg):
     # R02.1
     n_slots = 0
+    n_term = 0
     for f in fx.d["fns"]:
-        if f["def"].endswith("Environment::<A, R>::from_channel"):
-            continue
         b = ctx.body(fx, f)
         for bi, t in b.normal_calls():
             if t.get("callee") != "futures_channel::oneshot::channel":
+                continue
+            # the termination channel (its sender becomes the StopNotifier) is not a response slot: R02.3 covers it
+            if any(s["k"] == "agg" and s.get("def") == "context::StopNotifier" for s in sinks(b, t["dest"][0])):
+                n_term += 1
                 continue
             n_slots += 1
             inst = "%s@%s" % (f["def"], cfg)
@@ -132,10 +138,18 @@ def check_cfg(ctx, fx, cfg):
             polled = [x for x in rsk if x["k"] == "call" and (x["t"].get("callee") or "").endswith("Future::poll")]
             stray = [x for x in rsk if x["k"] in ("agg", "store", "ret") or (x["k"] == "call" and not (x["t"].get("callee") or "").endswith(("Future::poll", "get_context")))]
             ctx.require(len(polled) >= 1 and not stray, "R02.1", inst + ":receiver-awaited", "the response receiver must be awaited by the caller and nothing else", fn=f["def"], site=t["l"])
-            okv = [st for _bi, _si, st in agg_sites(b, adt="core::result::Result", variant="Ok") if st["p"] == [0]]
+            okv = [st["r"]["ops"][0] for _bi, _si, st in agg_sites(b, adt="core::result::Result", variant="Ok") if st["p"] == [0]]
+            # ... or the received result handed back through an adapter that keeps its Ok value (`rx.await.map_err(..)`)
+            for _cbi, ct in b.normal_calls():
+                if ct["dest"] == [0] and ct.get("callee") in ("core::result::{impl#0}::map_err", "core::result::{impl#0}::inspect_err", "core::result::{impl#0}::inspect") and ct["args"]:
+                    okv.append(ct["args"][0])
+            for _l, defs in b.assigns.items():
+                for (_abi, _asi, ast) in defs:
+                    if ast["p"] == [0] and ast["r"]["k"] == "use" and ast["r"]["o"].get("k") in ("move", "copy") and any(o.kind == "await" for o in b.origins(ast["r"]["o"])):
+                        okv.append(ast["r"]["o"])
             good = bool(okv)
-            for st in okv:
-                rs = roots(b, st["r"]["ops"][0])
+            for okop in okv:
+                rs = roots(b, okop)
                 for o in rs:
                     if o.kind != "await":
                         good = False
@@ -145,6 +159,7 @@ def check_cfg(ctx, fx, cfg):
                         good = False
             ctx.require(good, "R02.1", inst + ":ok-from-receiver", "Ok(..) returned by a call must be the value received on this call's response channel", fn=f["def"], site=t["l"])
     ctx.floor("R02.1", "call-like sites with a response slot (%s)" % cfg, n_slots, 3)
+    ctx.require(n_term == 1, "R02.1", "termination-channel-birth@" + cfg, "expected exactly one oneshot channel whose sender becomes the StopNotifier, found %d" % n_term, site="crate", detail=n_term)
     # R02.2 / R02.3
     for f, kind in loops.find_loops(fx):
         up = f.get("upvars", [])
